@@ -211,7 +211,7 @@ def renumber(a):
 
 def names_clean(svals):
     strs = [str(v) for v in svals]
-    return len(set(strs)) == len(strs) and all(";" not in s and s != "TRASH" for s in strs)
+    return len(set(strs)) == len(strs) and all(";" not in s and s not in ("TRASH", "") for s in strs)
 
 
 def words_upto(syms, n):
